@@ -83,9 +83,18 @@ impl LazyBigint {
             // shortcut, if std will work we use that
             Ok(v) => Ok(LazyBigint::from(v)),
             Err(e) => match e.kind() {
-                IntErrorKind::PosOverflow | IntErrorKind::NegOverflow => Ok(LazyBigint::from(
-                    BigInt::from_str_radix(s, radix).map_err(Either::Right)?,
-                )),
+                IntErrorKind::PosOverflow | IntErrorKind::NegOverflow => {
+                    // num-bigint skips '_' separators, std rejects them: reject them here too,
+                    // so that the accepted syntax does not depend on the magnitude
+                    if s.contains('_') {
+                        return Err(Either::Left(
+                            i128::from_str_radix("_", radix).unwrap_err(),
+                        ));
+                    }
+                    Ok(LazyBigint::from(
+                        BigInt::from_str_radix(s, radix).map_err(Either::Right)?,
+                    ))
+                }
                 _ => Err(Either::Left(e)),
             },
         }
